@@ -1,7 +1,7 @@
 #!/bin/bash
 # try_all_seeded.sh P1 P2 ...: for each property, run its check against /tmp/mut-P-scratch/{1,2,3}
 cd /verif
-for P in "$@"; do for i in 1 2 3; do
+for P in "$@"; do for i in 1 2 3 4; do
   [ -f /tmp/mut-$P-scratch/$i/patch.diff ] || continue
   echo "== $P-$i: $(python3 -c "import json;print(json.load(open('/tmp/mut-$P-scratch/$i/meta.json'))['summary'][:160])")"
   tools/try_seeded.sh $P /tmp/mut-$P-scratch/$i/patch.diff 2>&1 | cut -c1-400 | head -3
